@@ -253,6 +253,9 @@ func TestCheck(t *testing.T) {
 		case 0, 1:
 			// one named fragment shared by objects of two types
 			o.PForeign = 0.2
+		case 4:
+			// a field answering under the name of the object's key field
+			o.KeyNameAlias = true
 		case 2, 3:
 			// @skip/@include as part of ordinary queries (C19 studies them by
 			// themselves); a selection set may lose all its selections
